@@ -24,8 +24,9 @@ import (
 //
 // Job = (integration set, n, index-time batch b0, batch b1, conc, pre-growth, fork depth d,
 // replacement length r, content variant, optional second reorg, post-growth).
-// Phase 1 (inside the world, sequential): index the n-block chain to the head with batch b0.
-// Restart with new settings (second config: batch b1 / conc). Phase 2 (explored): task thread(s)
+// Phase 1 (real pipeline, sequential, once per job; its database is the start state of every
+// execution): index the n-block chain to the head with batch b0. Every execution restarts with new
+// settings (second config: batch b1 / conc). Phase 2 (explored): task thread(s)
 // stepping, environment thread applying [grow] reorg [reorg2] [grow]; the reorg may land at every
 // RPC point of the task threads. Oracle at quiescence + frame condition at every commit.
 
@@ -66,8 +67,10 @@ func init() {
 			"per job every schedule of task thread(s) and the environment thread with <= 1 deviation (thorough: 2 on the single-integration jobs with index batch 1), free switches at step boundaries and between environment operations, environment switches otherwise only at RPC points; both partition orders when conc=2 and index batch 1. An execution is non-trivial when the code under test deleted at least one row or cursor (a reorg was unwound) or the oracle rejected it; distinct = distinct (job, choice sequence).",
 		Assumptions: []string{
 			"fake Postgres (h/simpg) interprets the SQL shovel sends; simulated node (h/simeth) answers like a well-behaved geth that switches chains atomically between two requests",
+			"phase 1 (index the n-block chain to its head with batch b0, real pipeline, sequential) runs once per job in a scratch world; its database is the start state of every execution, which begins with a process restart: fresh tasks and source client from the second config (batch b1 / conc), then one idle poll per task (nothing new yet) — plain indexing is C01's subject, a failure there is a harness error",
 			"'the source settles' = the environment thread has applied its last chain change; afterwards each task is stepped until it reports 'no new blocks' (number of integrations + 1) times in a row (the head cache may serve that many stale answers), horizon 4n+8 steps",
-			"phase 1 (plain indexing) is C01's subject: a failure there is reported as harness error, not judged here",
+			"while the source has not changed since its last poll a task does not poll again (it would repeat the same step)",
+			"reductions with several tasks on one client: the schedule space is explored while the source changes (afterwards the tasks are drained one after the other); only the first task's step boundaries are free switch points; preemptive switches to a task happen at RPC exchanges / step boundaries only; at most two environment operations",
 		},
 		Budget:        map[string]time.Duration{"quick": 140 * time.Second, "thorough": 850 * time.Second},
 		MinNontrivial: 1000,
